@@ -39,6 +39,9 @@ type SPScenario struct {
 	// released, an inbound TestRequest is injected while the remaining senders are held at the gate
 	// (the session's own reply must not overtake a message that already has its number)
 	ReplyAt int `json:"replyAt"`
+	// stress scenarios: every sender sends ONE message object again and again (as the repository's own highload test
+	// does) instead of a fresh one per call
+	Reuse bool `json:"reuse"`
 }
 
 type WireRec struct {
@@ -216,6 +219,7 @@ func RunGate(sc *SPScenario) (*WireObs, string) {
 		for {
 			select {
 			case raw := <-h.Outgoing():
+				raw = append([]byte{}, raw...) // what a writer would put on the wire now
 				mu.Lock()
 				wire = append(wire, wireRec(raw, &all, time.Since(t0).Milliseconds()))
 				mu.Unlock()
@@ -404,11 +408,16 @@ func RunStress(t *testing.T, sc *SPScenario) (obs *WireObs, failure string) {
 			go func() {
 				defer wg.Done()
 				rnd := rand.New(rand.NewSource(sc.Seed*1000 + int64(i)))
+				own := fixgen.NewMarketDataRequest()
 				for k := 0; k < sc.PerSender; k++ {
 					if rnd.Intn(3) == 0 {
 						time.Sleep(time.Duration(rnd.Intn(sc.Hb*1500)) * time.Millisecond)
 					}
-					_ = r.S.Send(fixgen.NewMarketDataRequest().SetMDReqID("s" + strconv.Itoa(i) + "-" + strconv.Itoa(k)))
+					m := own
+					if !sc.Reuse {
+						m = fixgen.NewMarketDataRequest()
+					}
+					_ = r.S.Send(m.SetMDReqID("s" + strconv.Itoa(i) + "-" + strconv.Itoa(k)))
 				}
 			}()
 		}
@@ -450,3 +459,9 @@ func RunStress(t *testing.T, sc *SPScenario) (obs *WireObs, failure string) {
 	})
 	return obs, failure
 }
+
+// WireRecOf is wireRec for other packages of the harness.
+func WireRecOf(raw []byte, all *[][]byte, t int64) WireRec { return wireRec(raw, all, t) }
+
+// Ints exposes ints.
+func Ints(b []byte) []int { return ints(b) }
